@@ -103,6 +103,7 @@ type FS struct {
 	armed    bool
 	failAll  bool // every operation fails (used by some engines)
 	missOpen int  // Open() of a table that does not exist
+	torn     int  // (crash images) number of files whose contents differ from the live file
 
 	// optional hook invoked (without the lock) before every mutating op
 	Hook func(kind string, fd storage.FileDesc)
@@ -186,6 +187,9 @@ func (v *FS) snapshotLocked(tail TailMode) *FS {
 		d := make([]byte, 0, keep+len(junk))
 		d = append(d, f.data[:keep]...)
 		d = append(d, junk...)
+		if keep != len(f.data) || len(junk) > 0 {
+			img.torn++
+		}
 		img.gen++
 		img.files[fd] = &file{data: d, synced: len(d), gen: img.gen}
 	}
@@ -631,3 +635,7 @@ func (v *FS) Rename(o, n storage.FileDesc) error {
 func (v *FS) Close() error { return nil }
 
 var _ storage.Storage = (*FS)(nil)
+
+// Torn reports how many files of the image lost or gained bytes relative to
+// the live storage at the crash instant (set on images produced by a crash).
+func (v *FS) Torn() int { v.mu.Lock(); defer v.mu.Unlock(); return v.torn }
